@@ -255,12 +255,19 @@ func (s *AdminOp) ProcessAdminOP(cmd *agtypes.AdminOPCmd, app AdminApp) error {
 func (s *AdminOp) CheckMajor23(cmd *agtypes.AdminOPCmd) bool {
 	msg := cmd.Msg
 	var major23 int64
+	// every validator is counted once, however often its signature appears in the list
+	counted := make(map[string]struct{}, len(cmd.SInfos))
 	for _, sig := range cmd.SInfos {
 		sigPubKey := crypto.SetNodePubkey(sig.PubKey)
-		_, validator := (*s.validators).GetByAddress(sigPubKey.Address())
+		address := sigPubKey.Address()
+		_, validator := (*s.validators).GetByAddress(address)
 		if validator != nil && validator.VotingPower > 0 {
+			if _, dup := counted[string(address)]; dup {
+				continue
+			}
 			sig64 := crypto.SetNodeSignature(sig.Signature)
 			if sigPubKey.VerifyBytes(msg, sig64) {
+				counted[string(address)] = struct{}{}
 				major23 += validator.VotingPower
 			} else {
 				log.Info("check major 2/3", zap.String("vote nil", fmt.Sprintf("sig=%X;pubkey=%X", sig.Signature, sigPubKey.KeyString())))
